@@ -31,7 +31,9 @@ PROPS = {
                           "optimise_savings' start == the maximising candidate. Non-negative/non-decreasing scores follow from CG's definition. "
                           "'Re-evaluating the reported anomalies gives exactly the final score' is proved as a total: get_anomalies reports every link of "
                           "the value-carrying back-pointer chain (V[n] == V[0] + sum of the reported gains, list sums LSUM with the extensionality lemma "
-                          "L_lsum_ext), hence CG(n) == sum of the penalised savings of the reported collective and point anomalies (run_base_capa, run_capa). "
+                          "L_lsum_ext), hence CG(n) == sum of the penalised savings of the reported collective and point anomalies (run_base_capa, run_capa; run_mvcapa in all "
+                          "16 penalty-kind combinations, under the named closed-form penalties: axiom AX_psc_ext - PSC depends on the betas only through "
+                          "their values - with its premise proved per use). "
                           "CAPA/MVCAPA class glue (_predict, _transform_scores, ignore_point_anomalies) proved with pandas assumed; the p>2 subset exchange "
                           "argument is bounded.",
             "level_note": "CG defined by its Bellman equations; PSC for symbolic p is the assumed row-wise penalised saving (exchange argument assumed, "
